@@ -310,6 +310,44 @@ class Gen:
             blk["kids"] = self.body(depth + 1, rng.randint(1, 2))
         return blk
 
+    def structured(self, depth):
+        """directives excluded from the generic table because they want a particular body shape; none of them rewrites its children"""
+        rng = self.rng
+        spec = self.t["spec"]
+
+        def dom(name):
+            for key, d in spec.directive.items():
+                if key.split(":")[-1] == name:
+                    return d.domain or ""
+            return ""
+        r = rng.random()
+        if r < 0.45:
+            ncols = rng.randint(1, 3)
+
+            def cell():
+                kids = [self.para(hi=3)]
+                if depth < 2 and rng.random() < 0.15:
+                    kids += self.body(depth + 2, 1)
+                return {"k": "item", "kids": kids}
+            rows = [{"k": "item", "kids": [{"k": "bullet", "marker": "-", "items": [cell() for _ in range(ncols)]}]}
+                    for _ in range(rng.randint(1, 3))]
+            opts = []
+            if rng.random() < 0.6:
+                h = rng.choice([0, 1]) if len(rows) >= 2 else 0   # "List-table cannot have only header rows" is the directive's own rule
+                opts.append(["header-rows", str(h), h])
+            if rng.random() < 0.4:
+                w = " ".join(str(rng.choice([10, 20, 30, 50])) for _ in range(ncols))
+                opts.append(["widths", w, w])
+            return {"k": "directive", "name": "list-table", "domain": dom("list-table"), "arg": [], "opts": opts,
+                    "kids": [{"k": "bullet", "marker": "*", "items": rows}]}
+        if r < 0.8:
+            ids = rng.sample(["shell", "python", "nodejs", "java-sync", "compass"], rng.randint(1, 3))
+            tabs = [{"k": "directive", "name": "tab", "domain": dom("tab"), "arg": [inl_text(i.capitalize())], "opts": [["tabid", i, i]],
+                     "kids": self.body(depth + 2, rng.randint(1, 2))} for i in ids]
+            return {"k": "directive", "name": "tabs", "domain": dom("tabs"), "arg": [], "opts": [], "kids": tabs}
+        return {"k": "directive", "name": "only", "domain": dom("only"), "arg": [inl_text(rng.choice(["html", "man", "not man"]))], "opts": [],
+                "kids": self.body(depth + 1, rng.randint(1, 2))}
+
     def items(self, depth):
         rng = self.rng
         out = []
@@ -381,7 +419,7 @@ class Gen:
             elif k == "label":
                 out.append(self.label())
             elif k == "directive":
-                out.append(self.directive(depth))
+                out.append(self.structured(depth) if (depth < 2 and rng.random() < 0.2) else self.directive(depth))
             elif k == "footnote":
                 self.nfoot = getattr(self, "nfoot", 0) + 1
                 my = self.nfoot
